@@ -32,12 +32,23 @@ def make_monitor(ctx):
         if died:
             bad = bad or "a child process died (%s)" % died[0]["how"]
         want = 1 if bad else 0
+        if c.opts.get("post_mortem"):
+            # (-D runs the tests through test.debug(): no per-test windows in the trace; these worlds' tests either
+            # pass, skip, or fail/raise in their body)
+            kinds = {t["id"]: t["kind"] for t in c.world["tests"]}
+            hit = [e["t"] for e in c.obs.events if e.get("ev") == "ph" and e.get("ph") == ["body"]
+                   and kinds.get(e["t"]) in ("fail", "error")]
+            if hit:
+                bad = "test t%d failed (%s)" % (hit[0], kinds[hit[0]])
+                if c.obs.exit == 0:
+                    return ("exit status 0 with -D although %s" % bad, "C02:post-mortem-pass")
+                return None
         if c.obs.exit != want:
             return ("exit status %r, but %s" % (c.obs.exit, bad or "nothing went wrong"), "C02:verdict")
         if c.obs.exit == 0 and c.groups is not None and not c.obs.timeout:
             # a run that passes has run every selected layer somewhere: a layer none of whose tests started in any
             # process is a layer whose subprocess was not started or whose report was lost
-            started = {e["t"] for e in c.obs.events if e.get("ev") == "tstart"}
+            started = {e["t"] for e in c.obs.events if e.get("ev") in ("tstart", "ph")}
             for li, ts in c.groups:
                 if ts and not started & set(ts):
                     return ("exit status 0, but layer %s (tests %r) ran in no process: its subprocess was not started "
@@ -119,6 +130,7 @@ def gen_cases(ctx):
                 rng.choice(cand)["tearDownFaults"] = [[999999, 2]]
         cases.append(cw.Case(w, o))
     cases += death_cases(ctx, 16 if ctx.quick() else 300)
+    cases += post_mortem_cases(ctx, 4 if ctx.quick() else 40)
     # tear-down faults of both kinds in one tear-down pass: a derived layer whose tearDown raises a real error, its
     # base signals NotImplementedError, another layer follows; nothing else goes wrong
     for i in range(6 if ctx.quick() else 80):
@@ -271,3 +283,38 @@ def replay(ctx, obj):
     if c is None:
         return run(ctx)
     run_cases(ctx, [c])
+
+
+def post_mortem_cases(ctx, n):
+    """-D/--post-mortem (the debugger prompt is answered with "c"): the verdict all the same"""
+    rng = ctx.rng
+    cases = []
+    for i in range(n):
+        w = worlds.gen_world(rng, n_layers=rng.choice([1, 2]), tests_per_layer=(1, 3),
+                             kinds=["pass", "pass", "skipBody"] if i % 2 else ["pass", "error", "fail"], p_fault=0.0, p_write=0.0)
+        for t in w["tests"]:
+            for k in ("doctest", "rebind", "ownstream", "label"):
+                t.pop(k, None)
+        cases.append(cw.Case(w, {"verbose": 1, "post_mortem": True, "_stdin": "c\n" * 30, "_timeout": 60}, "post-mortem"))
+    return cases
+
+
+def probe_d34(ctx):
+    import os
+    import random
+    import shutil
+    rng = random.Random(11)
+    w = worlds.gen_world(rng, n_layers=1, tests_per_layer=(2, 2), kinds=["fail"], p_fault=0.0, p_write=0.0)
+    for t in w["tests"]:
+        for k in ("doctest", "rebind", "ownstream", "label"):
+            t.pop(k, None)
+    d = os.path.join(ctx.tmp, "probe-d34")
+    worlds.materialize(w, d)
+    obs = worlds.run_real(w, {"verbose": 1, "post_mortem": True, "_stdin": "c\n" * 10, "_timeout": 60}, d)
+    shutil.rmtree(d, ignore_errors=True)
+    started = [e for e in obs.events if e.get("ev") == "tstart"]
+    return bool(started and obs.exit == 0 and "(Pdb)" in obs.stdout), (
+        "-D: a failing test (the debugger is left with 'c') ends the run with exit status %r" % obs.exit)
+
+
+KNOWN_PROBES = {"D34": probe_d34}
